@@ -20,6 +20,11 @@
    Only "generic" carries the alignment clauses; "parallel" demands a finite proper rotation
    with z_B = F/|F|; "zero"/"tiny" demand a finite proper rotation, nothing else.
 
+   The cells are stated on the FORCE.  mr_ref_traj takes the mass as an input, so force and specific force cross the
+   1e-6 band at different accelerations unless m = 1; the harness sweeps |g e3 - a| through 1e-8 .. 1e-2 for masses
+   0.027 .. 40 kg (mass_band_sweep): a finite proper rotation everywhere, z_B = F/|F| where both m |g e3 - a| and
+   |g e3 - a| are above 1e-5 (whichever of the two a guard tests).
+
    CONTROLLERS (position_control, se23_position_control):
         F = sat(pt + vt + at) + (tr + zi) e3        (everything / den)
    pt, vt, at = the position-, velocity- and feed-forward parts of the PD term (the harness
